@@ -11,6 +11,7 @@ import (
 	"pgregory.net/rapid"
 	"verifharness/internal/ev"
 	"verifharness/internal/gen"
+	"verifharness/internal/kf"
 	"verifharness/internal/rt"
 )
 
@@ -96,6 +97,12 @@ func (e *expr) fields(into map[string]bool) {
 	e.a.fields(into)
 	e.b.fields(into)
 	e.c.fields(into)
+}
+
+func (e *expr) hasField() bool {
+	m := map[string]bool{}
+	e.fields(m)
+	return len(m) > 0
 }
 
 func (e *expr) hasConditional() bool {
@@ -303,9 +310,19 @@ func (g *c35gen) cond(depth int) *expr {
 		} else {
 			b = g.anyExpr(0)
 		}
-		return &expr{k: xIs, neg: gen.Chance(g.t, "isnt", 35), a: g.anyExpr(min(depth, 1)), b: b}
+		// a comparison of two constants is folded at compile time and then
+		// short-circuits and/or/?: (`x or true` drops x): always involve a field
+		a := g.anyExpr(min(depth, 1))
+		if !a.hasField() {
+			a = &expr{k: xField, f: g.pickField(g.avail)}
+		}
+		return &expr{k: xIs, neg: gen.Chance(g.t, "isnt", 35), a: a, b: b}
 	case 1:
-		return &expr{k: xLt, neg: gen.Chance(g.t, "gte", 40), a: g.strictNum(min(depth, 1)), b: g.strictNum(0)}
+		a := g.strictNum(min(depth, 1))
+		if !a.hasField() {
+			a = &expr{k: xArith, op: '+', a: &expr{k: xField, f: g.pickField(g.numericFields())}, b: a}
+		}
+		return &expr{k: xLt, neg: gen.Chance(g.t, "gte", 40), a: a, b: g.strictNum(0)}
 	case 2:
 		return &expr{k: xAnd, a: g.cond(depth - 1), b: g.cond(depth - 1)}
 	case 3:
@@ -387,9 +404,20 @@ type c35rec struct {
 	real     core.Value
 	plain    map[string]mval // present plain members
 	st       map[string]int
+	cached   map[string]bool // rule fields that hold a saved result (valid or not)
 	obs      []*c35obs
 	readonly bool
 	name     string
+}
+
+// staleCache: some rule field holds a saved result that is not known to be valid.
+func (r *c35rec) staleCache() bool {
+	for f, c := range r.cached {
+		if c && r.st[f] != stValid {
+			return true
+		}
+	}
+	return false
 }
 
 func (w *c35world) seen(r *c35rec, f string) mval {
@@ -428,6 +456,7 @@ func (w *c35world) touch(r *c35rec, f string, events *c35events) {
 		return // read-only records cannot save results
 	}
 	was := r.st[f]
+	r.cached[f] = true
 	if was == stValid {
 		return
 	}
@@ -675,7 +704,7 @@ func c35script(t *rapid.T, erec *ev.Rec, l *lang) {
 		}
 	}
 
-	first := &c35rec{real: r.must(l.call(c35New)), plain: map[string]mval{}, st: map[string]int{}, name: "r0"}
+	first := &c35rec{real: r.must(l.call(c35New)), plain: map[string]mval{}, st: map[string]int{}, cached: map[string]bool{}, name: "r0"}
 	r.desc = append(r.desc, "r0 = Record()")
 	recs := []*c35rec{first}
 	rulesFirst := gen.Chance(t, "rulesfirst", 50)
@@ -837,6 +866,7 @@ func c35script(t *rapid.T, erec *ev.Rec, l *lang) {
 				// the cached result is gone; the next access calls the rule
 				w.change(rec, f, false, &r.ev)
 				rec.st[f] = stInvalid
+				rec.cached[f] = false
 			}
 			if useLang {
 				r.must(l.call(c35Delete, rec.real, core.SuStr(f)))
@@ -855,9 +885,12 @@ func c35script(t *rapid.T, erec *ev.Rec, l *lang) {
 			if _, ok := cv.(*core.SuRecord); !ok || cv == rec.real {
 				r.failf("%s returned %T", text, cv)
 			}
-			nc := &c35rec{real: cv, plain: map[string]mval{}, st: map[string]int{}}
+			nc := &c35rec{real: cv, plain: map[string]mval{}, st: map[string]int{}, cached: map[string]bool{}}
 			for k, v := range rec.plain {
 				nc.plain[k] = v
+			}
+			for k, v := range rec.cached {
+				nc.cached[k] = v
 			}
 			for k, v := range rec.st {
 				nc.st[k] = v // "a copy of the record, including rule dependencies"
@@ -952,6 +985,14 @@ func c35script(t *rapid.T, erec *ev.Rec, l *lang) {
 			r.lab["remove_observer"]++
 			r.settle(rec, text, nil)
 		case 8: // Set_readonly: "rules will still work, but their results can not be saved"
+			if rec.staleCache() {
+				r.lab["readonly_with_stale_cache"]++
+				if e, ok := kf.Known("C35", "readonly-invalid-cached-rule"); ok {
+					erec.Excluded("readonly-invalid-cached-rule")
+					erec.Known(e.What)
+					continue
+				}
+			}
 			text = fmt.Sprintf("%s.Set_readonly() [%s]", rec.name, route)
 			r.desc = append(r.desc, text)
 			if useLang {
